@@ -130,7 +130,10 @@ def gen_cases(names, seed, n_random):
             add('floor_with_precision', (x, pr), same_num(f'(floor_with_precision FNum {f(x)} {C.cz(pr)})', jh.floor_with_precision(x, pr)))
             cur = rnd_price(rng)
             op = cur * rng.choice([1.0, 1 + 0.00015, 1 - 0.00015, 1 + 0.000149, 1 - 0.000151, 1 + rng.uniform(-0.0004, 0.0004), 1.01, 0.9])
-            add('is_price_near', (op, cur), f'Bool.eqb (is_price_near FNum {f(op)} {f(cur)} {f(0.00015)}) {C.cbool(bool(jh.is_price_near(op, cur)))}')
+            if cur != 0.0:                     # a zero price to compare with makes the Python function divide by zero: outside the translated domain
+                add('is_price_near', (op, cur), f'Bool.eqb (is_price_near FNum {f(op)} {f(cur)} {f(0.00015)}) {C.cbool(bool(jh.is_price_near(op, cur)))}')
+            else:
+                skipped += 1
     if 'utils' in names:
         for _ in range(n_random):
             cap = rng.choice([rnd_price(rng) * 10, 10000.0, 13.7, round(rng.uniform(1, 1e5), 2)])
@@ -138,13 +141,16 @@ def gen_cases(names, seed, n_random):
             prec = rng.randrange(0, 9)
             fee = rng.choice([0.0, 0.0, 0.001, 0.0004, 0.00075, 0.01])
             r = call_res(utils.size_to_qty, cap, price, prec, fee)
-            if r is None: skipped += 1
+            # Base/Num.v converts integers to binary64 exactly only below 2^63 (stated there): a quotient whose shifted value reaches that
+            # magnitude (a capital of millions at a price of 1e-5 with 8 decimals) is outside the domain the generated kernels are evaluated on
+            big = price != 0 and abs(cap / price) * 10 ** prec >= 2.0 ** 62
+            if r is None or big: skipped += 1
             else: add('size_to_qty', (cap, price, prec, fee), res_num(f'(size_to_qty FNum {f(cap)} {f(price)} {C.cz(prec)} {f(fee)})', r))
             entry = price
             stop = entry * rng.choice([0.9, 0.99, 1.01, 1.1, 1.0, 0.5])
             risk = rng.choice([1.0, 2.0, 0.5, 10.0, 100.0, 3.3])
             r = call_res(utils.risk_to_qty, cap, risk, entry, stop, prec, fee)
-            if r is None: skipped += 1
+            if r is None or big: skipped += 1
             else: add('risk_to_qty', (cap, risk, entry, stop, prec, fee), res_num(f'(risk_to_qty FNum {f(cap)} {f(risk)} {f(entry)} {f(stop)} {C.cz(prec)} {f(fee)})', r))
             rpq = abs(entry - stop)
             r = call_res(utils.risk_to_size, cap, risk, rpq, entry)
